@@ -35,6 +35,14 @@ def containsSub (s sub : Bytes) : Bool :=
   | [] => sub.isEmpty
   | c :: cs => sub.isPrefixOf (c :: cs) || containsSub cs sub
 
+/-- functions of the standard library (and zlint helpers built on regular expressions or the public-suffix list) that a
+    rule applies to a string: parameters of the model. `fn` = a string-valued projection of a parse (`url.Parse(s).Scheme`;
+    `none` when the parse failed), `pred` = a boolean (`url.Parse(s)` fails, `util.IsFQDNOrIP(s)`, …). Every theorem holds
+    for every environment; the correspondence computes the environment with the real functions. -/
+structure Env where
+  fn : Nat → Bytes → Option Bytes
+  pred : Nat → Bytes → Bool
+
 /-- predicate on one string element of a list field -/
 inductive SPred
   | hasPrefix (lit : Bytes)
@@ -43,21 +51,27 @@ inductive SPred
   | eq (lit : Bytes)
   | lenCmp (c : Cmp) (k : Int)      -- len(s) OP k (octets)
   | runesCmp (c : Cmp) (k : Int)    -- utf8.RuneCountInString(s) OP k
+  | ext (id : Nat)                  -- an external predicate of the environment
+  | proj (id : Nat) (p : SPred)     -- p on an external projection of the string; false when the projection failed
   | not (p : SPred)
   | and (p q : SPred)
   | or (p q : SPred)
   deriving Repr, DecidableEq
 
-def SPred.eval : SPred → Bytes → Bool
+def SPred.eval (env : Env) : SPred → Bytes → Bool
   | .hasPrefix l, s => l.isPrefixOf s
   | .hasSuffix l, s => l.isSuffixOf s
   | .contains l, s => containsSub s l
   | .eq l, s => s == l
   | .lenCmp c k, s => c.eval s.length k
   | .runesCmp c k, s => c.eval (Thresholds.runeCount s) k
-  | .not p, s => !(p.eval s)
-  | .and p q, s => p.eval s && q.eval s
-  | .or p q, s => p.eval s || q.eval s
+  | .ext id, s => env.pred id s
+  | .proj id p, s => match env.fn id s with
+    | some t => p.eval env t
+    | none => false
+  | .not p, s => !(p.eval env s)
+  | .and p q, s => p.eval env s && q.eval env s
+  | .or p q, s => p.eval env s || q.eval env s
 
 /-- a list-valued field as the lints can observe it -/
 structure ListVal where
@@ -121,44 +135,44 @@ inductive Cond
   deriving Repr, DecidableEq
 
 /-- evaluation; `none` = the Go expression panics (nil dereference) -/
-def evalC (v : View) : Cond → Option Bool
+def evalC (env : Env) (v : View) : Cond → Option Bool
   | .const b => some b
   | .bool f => some (v.bool f)
   | .int f c k => some (c.eval (v.int f) k)
   | .mask f m => some ((v.int f).toNat &&& m != 0)
   | .strEq f l => some (v.str f == l)
-  | .strP f p => some (p.eval (v.str f))
+  | .strP f p => some (p.eval env (v.str f))
   | .maskEq f m k => some ((v.int f).toNat &&& m == k)
   | .time f op t => some (op.eval (v.time f) t)
   | .time2 f op g => some (op.eval (v.time f) (v.time g))
   | .isNil f => some (v.list f).isNil
   | .len f c k => some (c.eval (v.list f).len k)
-  | .anyS f p => some ((v.list f).strs.any p.eval)
+  | .anyS f p => some ((v.list f).strs.any (p.eval env))
   | .anyO f os => some ((v.list f).oids.any (fun o => os.contains o))
   | .anyI f is => some ((v.list f).ints.any (fun i => is.contains i))
   | .ext o => some (v.ext? o).isSome
   | .crit o => v.ext? o
-  | .not c => (evalC v c).map (!·)
-  | .and a b => match evalC v a with
+  | .not c => (evalC env v c).map (!·)
+  | .and a b => match evalC env v a with
     | none => none
     | some false => some false
-    | some true => evalC v b
-  | .or a b => match evalC v a with
+    | some true => evalC env v b
+  | .or a b => match evalC env v a with
     | none => none
     | some true => some true
-    | some false => evalC v b
+    | some false => evalC env v b
 
 inductive Stmt
   | ret (s : Status)
   | ite (c : Cond) (t e : Stmt)
   deriving Repr, DecidableEq
 
-def evalS (v : View) : Stmt → Option Status
+def evalS (env : Env) (v : View) : Stmt → Option Status
   | .ret s => some s
-  | .ite c t e => match evalC v c with
+  | .ite c t e => match evalC env v c with
     | none => none
-    | some true => evalS v t
-    | some false => evalS v e
+    | some true => evalS env v t
+    | some false => evalS env v e
 
 /-- every status some path of the statement returns -/
 def Stmt.statuses : Stmt → List Status
@@ -180,11 +194,11 @@ inductive Outcome
   | result (s : Status)  -- what Execute returns
   deriving Repr, DecidableEq
 
-def Rule.run (r : Rule) (v : View) : Outcome :=
-  match evalC v r.applies with
+def Rule.run (env : Env) (r : Rule) (v : View) : Outcome :=
+  match evalC env v r.applies with
   | none => .panic
   | some false => .notApplicable
-  | some true => match evalS v r.body with
+  | some true => match evalS env v r.body with
     | none => .panic
     | some s => .result s
 
